@@ -156,6 +156,17 @@ fn c18_is_zero_v(v2: Vector2<R>, v3_: Vector3<R>) {
     vcover("end");
 }
 fn c18_is_zero_v4(v4: Vector4<R>) { let o = R(0.0); vassert("v4", v4.is_zero() == ((v4.x == o) & (v4.y == o) & (v4.z == o) & (v4.w == o))); vcover("end"); }
+// The same clause with every arithmetic operation uninterpreted (UF mode, bit-exact native replay on extreme inputs):
+// a vector's is_zero may not depend on a product or sum of components (which underflows or overflows in floating point
+// and wraps for integers) -- it is true exactly when each component compares equal to zero.
+fn c18_uf_is_zero_v(v1: Vector1<R>, v2: Vector2<R>, v3_: Vector3<R>, v4: Vector4<R>) {
+    let o = R(0.0);
+    vassert("v1", v1.is_zero() == (v1.x == o));
+    vassert("v2", v2.is_zero() == ((v2.x == o) & (v2.y == o)));
+    vassert("v3", v3_.is_zero() == ((v3_.x == o) & (v3_.y == o) & (v3_.z == o)));
+    vassert("v4", v4.is_zero() == ((v4.x == o) & (v4.y == o) & (v4.z == o) & (v4.w == o)));
+    vcover("end");
+}
 fn c18_is_zero_q(q: Quaternion<R>, a: Rad<R>, d: Deg<R>) {
     let o = R(0.0);
     vassert("rad", a.is_zero() == ueq(a.0, o));
